@@ -6,6 +6,7 @@ import (
 	"go/constant"
 	"go/token"
 	"go/types"
+	"sort"
 
 	"golang.org/x/tools/go/ssa"
 
@@ -393,7 +394,7 @@ func RKeepLook(c *core.Ctx) {
 // ---------------------------------------------------------------------------
 
 func REnumPos(c *core.Ctx) {
-	c.Rule("R-ENUMPOS", "in CharSet.MayOverlap every call of a helper that walks the raw range list of one of its class arguments without consulting that argument's negation passes, in that position, a class known not to be negated on every path to the call (early returns on IsNegated / on the two negations differing): the raw ranges of a negated class are the characters it excludes, and testing those for membership in the other class answers the opposite question", 2)
+	c.Rule("R-ENUMPOS", "in CharSet.MayOverlap every call of a helper that reads the raw range or category list of one of its class arguments without consulting that argument's negation passes, in that position, a class known not to be negated on every path to the call (early returns on IsNegated / on the two negations differing): the raw ranges of a negated class are the characters it excludes, and testing those for membership in the other class answers the opposite question", 2)
 	p := c.P
 	syn := p.Pkg("syntax")
 	info := syn.TypesInfo
@@ -407,6 +408,43 @@ func REnumPos(c *core.Ctx) {
 		return
 	}
 	c.Visit("syntax.(*CharSet).MayOverlap")
+	cats := p.LookupField("syntax", "CharSet", "categories")
+	negMemo := map[*types.Func]bool{}
+	var consultsNeg func(f *types.Func, depth int) bool
+	consultsNeg = func(f *types.Func, depth int) bool {
+		if f == nil || f.Pkg() != syn.Types {
+			return true // unknown code: assume it may
+		}
+		if f == isNeg {
+			return true
+		}
+		if v, ok := negMemo[f]; ok {
+			return v
+		}
+		negMemo[f] = false
+		d, _ := p.DeclOf(f)
+		if d == nil || d.Body == nil || depth > 3 {
+			return false
+		}
+		res := false
+		ast.Inspect(d.Body, func(x ast.Node) bool {
+			switch y := x.(type) {
+			case *ast.SelectorExpr:
+				if core.FieldOf(info, y) == negate {
+					res = true
+				}
+			case *ast.CallExpr:
+				if cal := core.Callee(info, y); cal != nil && cal != f && cal.Pkg() == syn.Types {
+					if sig, ok := cal.Type().(*types.Signature); ok && sig.Recv() != nil && consultsNeg(cal, depth+1) {
+						res = true
+					}
+				}
+			}
+			return !res
+		})
+		negMemo[f] = res
+		return res
+	}
 	// which parameters of a callee are walked raw?
 	rawParams := func(fn *types.Func) []int {
 		d, _ := p.DeclOf(fn)
@@ -438,14 +476,14 @@ func REnumPos(c *core.Ctx) {
 				case *ast.SelectorExpr:
 					if id, ok := ast.Unparen(y.X).(*ast.Ident); ok && info.ObjectOf(id) == prm {
 						switch core.FieldOf(info, y) {
-						case ranges:
+						case ranges, cats:
 							readsRanges = true
 						case negate:
 							looksNeg = true
 						}
 						if sel := info.Selections[y]; sel != nil && sel.Kind() == types.MethodVal {
-							// any method of the class other than plain accessors may consult the negation
-							if f, ok := sel.Obj().(*types.Func); ok && f != nil && f.Origin() != nil {
+							// a method of the class that (itself or through other methods) consults the negation
+							if f, ok := sel.Obj().(*types.Func); ok && f != nil && consultsNeg(f.Origin(), 0) {
 								looksNeg = true
 							}
 						}
@@ -875,5 +913,327 @@ func RDigitName(c *core.Ctx) {
 		c.OK(key, fn.Pos(), "the bytes of the name are tested against '0' and '9' (or parsed unsigned)")
 	default:
 		c.Unknown(key, fn.Pos(), "no digit test and no numeric parse of the name found")
+	}
+}
+
+// ---------------------------------------------------------------------------
+// R-STARTSENT: only a negative start offset means "no start given".
+// The public entry points take a start offset; -1 selects the default start,
+// which for a RightToLeft pattern is the END of the text.  0 is an ordinary
+// offset (a right-to-left search from 0 looks at nothing to its left).  Any
+// branch on the caller's offset that goes on to consult RightToLeft() for the
+// default must therefore not be taken for 0.
+// ---------------------------------------------------------------------------
+
+var startSentExempt = map[string]string{
+	"regexp2.(*Regexp).matchStringAt": "its only non-negative argument is a candidate of the string prefix filter, which MatchString consults for left-to-right patterns only (R-RTLFILTER); for those the default start and offset 0 coincide",
+}
+
+func RStartSent(c *core.Ctx) {
+	c.Rule("R-STARTSENT", "wherever a start offset handed in through FindStringMatchStartingAt / FindRunesMatchStartingAt / Replace / ReplaceFunc (followed through the calls that pass it on unchanged) is compared with a constant and the branch taken goes on to ask RightToLeft() for the default start, the comparison is false for offset 0: only a negative offset stands for \"no start given\"", 2)
+	p := c.P
+	rtl := p.SSAFunc(p.LookupFunc("", "Regexp.RightToLeft"))
+	if rtl == nil {
+		c.Anchor("regexp2.Regexp.RightToLeft")
+		return
+	}
+	// The offset as a set of SSA values: the entry parameters, phis over them, the
+	// parameters of callees that receive them, and the results of callees that hand
+	// them back (findStringMatchStart returns the offset, or a filter candidate).
+	tainted := map[ssa.Value]bool{}
+	resTaint := map[*ssa.Function]map[int]bool{}
+	for _, ent := range []struct {
+		name string
+		idx  int
+	}{{"Regexp.FindStringMatchStartingAt", 2}, {"Regexp.FindRunesMatchStartingAt", 2}, {"Regexp.Replace", 3}, {"Regexp.ReplaceFunc", 3}} {
+		f := p.SSAFunc(p.LookupFunc("", ent.name))
+		if f == nil || len(f.Params) <= ent.idx {
+			c.Anchor("regexp2." + ent.name)
+			continue
+		}
+		tainted[f.Params[ent.idx]] = true
+	}
+	var rootFns []*ssa.Function
+	for _, fn := range p.ModuleFuncs() {
+		if core.FnPkgPath(fn) == core.PkgRoot && len(fn.Blocks) > 0 {
+			rootFns = append(rootFns, fn)
+		}
+	}
+	for changed := true; changed; {
+		changed = false
+		mark := func(v ssa.Value) {
+			if v != nil && !tainted[v] {
+				tainted[v] = true
+				changed = true
+			}
+		}
+		for _, fn := range rootFns {
+			for _, b := range fn.Blocks {
+				for _, ins := range b.Instrs {
+					switch x := ins.(type) {
+					case *ssa.Phi:
+						for _, e := range x.Edges {
+							if tainted[e] {
+								mark(x)
+							}
+						}
+					case *ssa.Extract:
+						if call, ok := x.Tuple.(*ssa.Call); ok {
+							if cal := call.Call.StaticCallee(); cal != nil && resTaint[cal][x.Index] {
+								mark(x)
+							}
+						}
+					case *ssa.Call:
+						cal := x.Call.StaticCallee()
+						if cal == nil {
+							continue
+						}
+						if resTaint[cal][0] && cal.Signature.Results().Len() == 1 {
+							mark(x)
+						}
+						if core.FnPkgPath(cal) == core.PkgRoot && len(cal.Blocks) > 0 {
+							for i, a := range x.Call.Args {
+								if tainted[a] && i < len(cal.Params) {
+									mark(cal.Params[i])
+								}
+							}
+						}
+					case *ssa.Return:
+						for i, r := range x.Results {
+							if tainted[r] && !resTaint[fn][i] {
+								if resTaint[fn] == nil {
+									resTaint[fn] = map[int]bool{}
+								}
+								resTaint[fn][i] = true
+								changed = true
+							}
+						}
+					}
+				}
+			}
+		}
+	}
+	n := 0
+	seenFn := map[*ssa.Function]bool{}
+	for v := range tainted {
+		if prm, ok := v.(*ssa.Parameter); ok {
+			seenFn[prm.Parent()] = true
+		}
+	}
+	var fns []*ssa.Function
+	for fn := range seenFn {
+		fns = append(fns, fn)
+	}
+	sort.Slice(fns, func(i, j int) bool { return core.SSAName(fns[i]) < core.SSAName(fns[j]) })
+	for _, fn := range fns {
+		name := core.SSAName(fn)
+		ord := 0
+		for _, b := range fn.Blocks {
+			if len(b.Instrs) == 0 || len(b.Succs) != 2 {
+				continue
+			}
+			ifi, ok := b.Instrs[len(b.Instrs)-1].(*ssa.If)
+			if !ok {
+				continue
+			}
+			cmp, ok := ifi.Cond.(*ssa.BinOp)
+			if !ok {
+				continue
+			}
+			k, isK := cmp.Y.(*ssa.Const)
+			if !isK || !tainted[cmp.X] || k.Value == nil || k.Value.Kind() != constant.Int {
+				continue
+			}
+			kv, _ := constant.Int64Val(k.Value)
+			var at0 bool
+			switch cmp.Op {
+			case token.LSS:
+				at0 = 0 < kv
+			case token.LEQ:
+				at0 = 0 <= kv
+			case token.GTR:
+				at0 = 0 > kv
+			case token.GEQ:
+				at0 = 0 >= kv
+			case token.EQL:
+				at0 = 0 == kv
+			case token.NEQ:
+				at0 = 0 != kv
+			default:
+				continue
+			}
+			// the branch taken for offset 0
+			taken := b.Succs[0]
+			other := b.Succs[1]
+			if !at0 {
+				taken, other = other, taken
+			}
+			// does the other branch (not taken for 0) consult RightToLeft for a default? then fine.
+			// does the branch taken for 0 — and only it — consult RightToLeft()?
+			consults := func(root, stop *ssa.BasicBlock) bool {
+				seen := map[*ssa.BasicBlock]bool{}
+				var dfs func(x *ssa.BasicBlock) bool
+				dfs = func(x *ssa.BasicBlock) bool {
+					if seen[x] || !root.Dominates(x) {
+						return false
+					}
+					seen[x] = true
+					for _, ins := range x.Instrs {
+						if call, ok := ins.(ssa.CallInstruction); ok && call.Common().StaticCallee() == rtl {
+							return true
+						}
+					}
+					for _, sc := range x.Succs {
+						if dfs(sc) {
+							return true
+						}
+					}
+					return false
+				}
+				return dfs(root)
+			}
+			takenAsks := len(taken.Preds) == 1 && consults(taken, nil)
+			otherAsks := len(other.Preds) == 1 && consults(other, nil)
+			if !takenAsks && !otherAsks {
+				continue
+			}
+			n++
+			ord++
+			c.Visit(name)
+			key := fmt.Sprintf("%s / default-start branch #%d is not taken for offset 0", name, ord)
+			if !takenAsks {
+				c.OK(key, cmp.Pos(), "`%s` is false for offset 0; the RightToLeft default is chosen on the other branch only", cmp.String())
+				continue
+			}
+			if why, ok := startSentExempt[name]; ok {
+				c.OK(key, cmp.Pos(), "exempt: %s", why)
+				continue
+			}
+			c.Bad(key, cmp.Pos(), "`%s` holds for an explicit start offset of 0, and the branch then takes the RightToLeft default (the end of the text): FindStringMatchStartingAt(s, 0) on a right-to-left pattern scans from the end instead of looking at nothing", cmp.String())
+		}
+	}
+	c.Note("R-STARTSENT: %d functions receive the caller's start offset unchanged", len(fns))
+	if n == 0 {
+		c.Anchor("branches on the caller's start offset that choose the RightToLeft default")
+	}
+}
+
+// ---------------------------------------------------------------------------
+// R-BOUNDDEC: where the runes of an input string begin is decided by decoding.
+// The engine decodes input with `range` / DecodeRune: an invalid byte is one
+// rune (U+FFFD) of width 1, a stray continuation byte included.  The rune
+// boundaries the string entry points accept as start offsets must be exactly
+// the positions that decoding yields; utf8.RuneStart classifies the byte
+// instead and calls every continuation byte "not a boundary".
+// ---------------------------------------------------------------------------
+
+func RBoundDec(c *core.Ctx) {
+	c.Rule("R-BOUNDDEC", "in packages regexp2 and compat no rune boundary of input text is derived from utf8.RuneStart: the boundaries are the byte positions that decoding the string yields (range over the string, DecodeRune*), under which every invalid byte — a stray continuation byte too — starts a rune", 1)
+	p := c.P
+	n, examined := 0, 0
+	for _, fn := range p.ModuleFuncs() {
+		pk := core.FnPkgPath(fn)
+		if pk != core.PkgRoot && pk != core.PkgCompat {
+			continue
+		}
+		examined++
+		for _, b := range fn.Blocks {
+			for _, ins := range b.Instrs {
+				call, ok := ins.(ssa.CallInstruction)
+				if !ok {
+					continue
+				}
+				cal := call.Common().StaticCallee()
+				if cal == nil || cal.Pkg == nil || cal.Pkg.Pkg.Path() != "unicode/utf8" || cal.Name() != "RuneStart" {
+					continue
+				}
+				n++
+				c.Visit(core.SSAName(fn))
+				c.Bad(fmt.Sprintf("%s / rune boundary by byte class #%d", core.SSAName(fn), n), call.Pos(), "utf8.RuneStart answers false for a continuation byte, but the decoder makes a stray continuation byte a rune of its own: a start offset that FindRunesMatchStartingAt accepts at the same rune index is rejected (or a position inside a rune accepted) by the string entry point")
+			}
+		}
+	}
+	if n == 0 {
+		c.OK("packages regexp2, compat / rune boundaries come from decoding", token.NoPos, "%d functions examined, no call of utf8.RuneStart", examined)
+	}
+}
+
+// ---------------------------------------------------------------------------
+// R-NEGCLEAR: a class method takes back only the negation canonicalize put
+// there.  canonicalize may rewrite "everything but one range" as a negated
+// class and marks that with `flipped`; un-flipping restores the positive form.
+// The user's own negation ([^…]) carries no such mark and is never cleared:
+// `[^\s\S]` stays the empty class even after its members grew to "anything".
+// ---------------------------------------------------------------------------
+
+func RNegClear(c *core.Ctx) {
+	c.Rule("R-NEGCLEAR", "in package syntax every store of the constant false into the negate field of an existing class (a parameter or receiver, not a class built in the same function) stands under a test that the class's flipped mark is set: only the negation introduced by canonicalize is ever taken back, never the one the pattern wrote", 1)
+	p := c.P
+	neg := p.LookupField("syntax", "CharSet", "negate")
+	flp := p.LookupField("syntax", "CharSet", "flipped")
+	if neg == nil || flp == nil {
+		c.Anchor("syntax.CharSet.negate / flipped")
+		return
+	}
+	n := 0
+	baseOf := func(v ssa.Value) ssa.Value {
+		if fa, ok := v.(*ssa.FieldAddr); ok {
+			return fa.X
+		}
+		return nil
+	}
+	for _, fn := range p.ModuleFuncs() {
+		if core.FnPkgPath(fn) != core.PkgSyntax {
+			continue
+		}
+		name := core.SSAName(fn)
+		ord := 0
+		for _, b := range fn.Blocks {
+			for _, ins := range b.Instrs {
+				st, ok := ins.(*ssa.Store)
+				if !ok || core.FieldVarOfAddr(st.Addr) != neg {
+					continue
+				}
+				k, ok := st.Val.(*ssa.Const)
+				if !ok || k.Value == nil || k.Value.Kind() != constant.Bool || constant.BoolVal(k.Value) {
+					continue
+				}
+				base := baseOf(st.Addr)
+				if _, isParam := base.(*ssa.Parameter); !isParam {
+					continue // a class under construction in this function
+				}
+				n++
+				ord++
+				c.Visit(name)
+				key := fmt.Sprintf("%s / clearing of negate #%d is for a flipped class", name, ord)
+				guarded := false
+				for d := b; d != nil && !guarded; d = d.Idom() {
+					idom := d.Idom()
+					if idom == nil || len(idom.Instrs) == 0 || len(idom.Succs) != 2 {
+						continue
+					}
+					ifi, ok := idom.Instrs[len(idom.Instrs)-1].(*ssa.If)
+					if !ok {
+						continue
+					}
+					ld, ok := ifi.Cond.(*ssa.UnOp)
+					if !ok || ld.Op != token.MUL || core.FieldVarOfAddr(ld.X) != flp || baseOf(ld.X) != base {
+						continue
+					}
+					// d must hang under the true edge
+					if idom.Succs[0] == d || (idom.Succs[0].Dominates(d) && len(idom.Succs[0].Preds) == 1) {
+						guarded = true
+					}
+				}
+				if guarded {
+					c.OK(key, st.Pos(), "the store is reached only when flipped is set")
+				} else {
+					c.Bad(key, st.Pos(), "negate is set to false without a test of flipped: a negation the pattern wrote ([^…]) is thrown away — `[^\\s\\S]`, whose members grow to \"anything\", then matches every character instead of none")
+				}
+			}
+		}
+	}
+	if n == 0 {
+		c.Anchor("stores of false into CharSet.negate of an existing class")
 	}
 }
